@@ -366,6 +366,39 @@ func Run(p Plan) (v hk.Verdict) {
 
 			return v
 		}
+
+		// decoding into an instance that already holds another value (a resource built by a constructor with defaults,
+		// an instance reused for a second decode) yields the encoded resource, not a mixture
+		var used interface {
+			resource.Resource
+			protobuf.ResourceUnmarshaler
+		}
+
+		switch p.Shape { //nolint:gocritic
+		case "proto": // (dynamic specs do not implement ProtoUnmarshaler on their own)
+			used = typed.NewResource[PSpec, pExt](resource.NewMetadata("old-ns", "C18Proto", "old-id", resource.VersionUndefined), protobuf.NewResourceSpec(&v1alpha1.LabelTerm{
+				Key: "old-key", Op: v1alpha1.LabelTerm_Operation(3), Value: []string{"old1", "old2"}, Invert: true,
+			}))
+		}
+
+		if used != nil {
+			used.Metadata().Labels().Set("old-label", "x")
+			used.Metadata().Finalizers().Add("old-fin")
+
+			if err := pr2.Unmarshal(used); err != nil {
+				v.Failf("Unmarshal of own encoding into a used %s instance: %v", p.Shape, err)
+
+				return v
+			}
+
+			if d := sameResource(r, used, true); d != "" {
+				v.Failf("protobuf wire round trip (%s) into an instance that held another value: %s", p.Shape, d)
+
+				return v
+			}
+
+			v.Label("decoded-into-used-instance")
+		}
 	}
 
 	// P3: store marshaler stacks
